@@ -10,7 +10,6 @@ import (
 	"crypto/sha256"
 	"fmt"
 	"io"
-	"net/http/httptest"
 	"strings"
 	"sync"
 	"sync/atomic"
@@ -26,6 +25,7 @@ import (
 	"pgregory.net/rapid"
 
 	"verif/harness/internal/hist"
+	"verif/harness/internal/memnet"
 	"verif/harness/internal/model"
 	"verif/harness/internal/ops"
 	"verif/harness/vt"
@@ -77,10 +77,10 @@ func execute(wl Workload) ([]Event, error) {
 	mem := ocimem.NewWithConfig(&ocimem.Config{ImmutableTags: wl.Immutable})
 	var regs []ociregistry.Interface
 	if wl.HTTP {
-		srv := httptest.NewServer(ociserver.New(mem, nil))
+		srv := memnet.NewServer(ociserver.New(mem, nil))
 		defer srv.Close()
 		for range wl.Threads {
-			c, err := ociclient.New(strings.TrimPrefix(srv.URL, "http://"), &ociclient.Options{Insecure: true})
+			c, err := ociclient.New(srv.Host, &ociclient.Options{Insecure: true, Transport: srv.Transport()})
 			if err != nil {
 				return nil, err
 			}
